@@ -148,6 +148,68 @@ Theorem C14_slice_no_panic : forall (A : Type) (xs : list A) (lo hi : option idx
 Proof. exact @C10_slice_no_panic. Qed.
 Print Assumptions C14_slice_no_panic.
 
+(* ... integer operators on both representations (C06), the numeric tower (C07), assignment / destructuring (C12),
+   the lexer (C15), decimal parsing (C16).  Required, not imported: the names are fully qualified. *)
+Require NV.Props.C06 NV.Props.C07 NV.Props.C12 NV.Props.C15 NV.Props.C16.
+
+Theorem C14_nint_ops_no_panic : forall a b : NV.Num.NInt.nint, NV.Num.NInt.ok a -> NV.Num.NInt.ok b ->
+  NV.Num.NInt.bi_add a b <> Panic /\
+  NV.Num.NInt.bi_sub a b <> Panic /\
+  NV.Num.NInt.bi_mul a b <> Panic /\
+  NV.Num.NInt.bi_rem a b <> Panic /\
+  NV.Num.NInt.bi_div_floor a b <> Panic /\
+  NV.Num.NInt.bi_mod_floor a b <> Panic /\
+  NV.Num.NInt.bi_div_exact a b <> Panic /\
+  NV.Num.NInt.bi_pow a b <> Panic /\
+  NV.Num.NInt.bi_and a b <> Panic /\
+  NV.Num.NInt.bi_or a b <> Panic /\
+  NV.Num.NInt.bi_xor a b <> Panic /\
+  NV.Num.NInt.bi_shl a b <> Panic /\
+  NV.Num.NInt.bi_shr a b <> Panic /\
+  NV.Num.NInt.bi_gcd a b <> Panic /\
+  NV.Num.NInt.bi_lcm a b <> Panic /\
+  NV.Num.NInt.bi_neg a <> Panic /\
+  NV.Num.NInt.bi_not a <> Panic /\
+  NV.Num.NInt.bi_abs a <> Panic /\
+  NV.Num.NInt.bi_signum a <> Panic /\
+  NV.Num.NInt.bi_even a <> Panic /\
+  NV.Num.NInt.bi_odd a <> Panic.
+Proof. exact NV.Props.C06.C06_builtins_no_panic. Qed.
+Print Assumptions C14_nint_ops_no_panic.
+
+Theorem C14_num_binops_no_panic : forall (F : NV.Num.Tower.float_ops) (op : NV.Num.Tower.binop) (a b : NV.Num.Tower.nnum),
+  NV.Num.Tower.num_binop F op a b <> Panic.
+Proof. exact NV.Props.C07.C07_binops_no_panic. Qed.
+Print Assumptions C14_num_binops_no_panic.
+
+Theorem C14_num_unops_no_panic : forall (F : NV.Num.Tower.float_ops) (x : NV.Num.Tower.nnum),
+  (forall op : NV.Num.Tower.unop, NV.Num.Tower.num_unop F op x <> Panic) /\
+  (forall c : NV.Num.Tower.conv, NV.Num.Tower.num_conv F c x <> Panic).
+Proof. exact NV.Props.C07.C07_unops_no_panic. Qed.
+Print Assumptions C14_num_unops_no_panic.
+
+Theorem C14_assign_no_panic : forall (sat : N -> NV.Lang.Types.val -> outcome bool)
+    (inexact : NV.Lang.Pattern.iop -> NV.Lang.Types.num -> NV.Lang.Types.num -> NV.Lang.Types.num),
+  (forall (pid : N) (v : NV.Lang.Types.val), sat pid v <> Panic) ->
+  forall (fuel : nat) (p : NV.Lang.Pattern.pat) (rt : option NV.Lang.Types.ty) (v : NV.Lang.Types.val) (s : NV.Lang.Pattern.store),
+  snd (NV.Lang.Pattern.assign sat inexact fuel p rt v s) <> Panic.
+Proof. exact NV.Props.C12.C12_assign_total. Qed.
+Print Assumptions C14_assign_no_panic.
+
+Theorem C14_lex_no_panic : forall (U : NV.Text.Chars.uclass) (s : list N),
+  (Z.of_nat (length s) <= 2147483647)%Z ->
+  NV.Text.Lexer.lex U s <> Panic /\ exists toks, NV.Text.Lexer.lex U s = Ok toks.
+Proof. exact NV.Props.C15.C15_lex_no_panic. Qed.
+Print Assumptions C14_lex_no_panic.
+
+Theorem C14_decimal_parse_no_panic : forall s : NV.Text.CodecChars.str,
+  NV.Text.Decimal.parse_rational_exactly s <> Panic /\
+  NV.Text.Decimal.parse_rational_exactly s <> OutOfFuel /\
+  NV.Text.Decimal.parse_decimal_exactly s <> Panic /\
+  NV.Text.Decimal.parse_decimal_exactly s <> OutOfFuel.
+Proof. exact NV.Props.C16.C16_decimal_parse_no_panic. Qed.
+Print Assumptions C14_decimal_parse_no_panic.
+
 (* non-vacuity: x0 = 5, x2 = [1,2].  `try (x0 //= 0) catch x1 -> x2[5] = 1`, then `x2[0] += 10`:
    the operator fails (x0 is left null), the catch clause runs and itself fails on the index, that Throw
    leaves the try; with a quiet catch clause the next statement runs and x2 is intact *)
